@@ -6,8 +6,9 @@
    `bounded26` hypotheses: inside that range the exact rational rounding of the model is what
    CPython's float division + round/ceil computes (DESIGN section 3); the proofs do not need them. *)
 From RichModel Require Import Prelude Cells Segments Ratio Table SpecTable.
+From RichModel Require Frames Layout Wrap.
 From RichGen Require Import BoxChars.
-From RichProofs Require Import RatioP TableP.
+From RichProofs Require Import RatioP TableP LayoutP2 TableP2 TableP3 TableP4.
 
 (* ================================================================= arithmetic kernels *)
 
@@ -187,54 +188,50 @@ Print Assumptions C07_rows_in_order.
 
 (* ================================================================= expand
 
-   FULL STATEMENT (not proved in general):
-     forall o cols avail ws, t_expand o = true ->
-       Forall (fun c => c_width c = None /\ c_maxw c = None) cols -> smin <= avail ->
-       table_widths false false o cols avail = Ok ws ->
-       extra_width o (length cols) + sumZ ws = target_width o avail.
-   PROVED (C07_table_expand_exact_partial): the case without ratio columns in which the table fits
-   at its measured maxima (no collapse needed), for the code as found and as repaired.
-   MISSING: the collapse path (needs: collapse leaves every column >= 1 when max_width >= #columns,
-   and a cell contract "re-measuring at a smaller width returns that width") and ratio columns.
-   Those paths are validated by expand_exact_b on the implementation's output for every generated
-   table, and the code AS FOUND fails there: C07_table_expand_exact_stale_refuted (D21) and
-   C07_table_expand_exact_capmin_refuted. *)
-Theorem C07_table_expand_exact_partial : forall stale capmin o cols max_width,
-  t_expand o = true -> (capmin = false \/ o_minw o = None) ->
-  filter flexible cols = [] -> cols <> [] ->
-  Forall (fun w => 1 <= w) (initial_widths o cols max_width) ->
-  sumZ (initial_widths o cols max_width) <= max_width ->
-  exists ws, calc_widths stale capmin o cols max_width = Ok ws /\ sumZ ws = max_width /\
-             Forall (fun w => 1 <= w) ws /\ length ws = length cols.
-Proof. exact calc_widths_expand_fits. Qed.
-Print Assumptions C07_table_expand_exact_partial.
-
-Example C07_table_expand_exact_nonvacuous :
-  table_widths false false capmin_opts capmin_cols 40 = Ok [19; 18]
-  /\ initial_widths capmin_opts capmin_cols 37 = [3; 3].
-Proof. vm_compute. split; reflexivity. Qed.
-
-(* ... composed with the rendering theorem: such a table is printed exactly `available` wide *)
-Theorem C07_table_expand_exact_rendered : forall o b cols avail rows,
-  box_agrees o b -> t_expand o = true -> filter flexible cols = [] -> cols <> [] ->
-  let mw := target_width o avail - extra_width o (length cols) in
-  Forall (fun w => 1 <= w) (initial_widths o cols mw) -> sumZ (initial_widths o cols mw) <= mw ->
-  exists ws, table_widths false false o cols avail = Ok ws /\
+   "When the table is asked to expand (and no column carries an explicit width cap) that width is
+   exactly the available width", for available widths at or above the structural minimum.
+   Domain = Table.expand_dom_b, the SAME boolean the harness evaluates before it demands
+   expand_exact_b of the implementation's printed table: expand (or Table.width) set; no column has
+   width, min_width or no_wrap (max_width and ratio, if given, >= 1 -- a max_width cap does not
+   even disturb exactness, so it is allowed although the property text excludes it); horizontal
+   padding >= 0; one cell per column beyond the borders (structural minimum).  Cells: ANY cells whose
+   Measurement.get is normalised (cell_fun_ok; always true of what Measurement.get returns, proved
+   for text cells: text_cells_ok).  EVERY path of the repaired _calculate_column_widths: ratio
+   columns, collapse, re-measure, table min_width; the solver does not fail (no AssertionError /
+   StopIteration / fuel), every column keeps >= 1 cell, borders + widths = the width asked for, and
+   every printed body line is exactly that wide.  Rests on C01's collapse_keeps_pos. *)
+Theorem C07_table_expand_exact : forall o b cols avail rows,
+  box_agrees o b -> expand_dom_b o cols avail = true ->
+  Forall (fun c => Forall cell_fun_ok (c_cells c)) cols ->
+  exists ws, table_widths false false o cols avail = Ok ws /\ length ws = length cols /\
+    Forall (fun w => 1 <= w) ws /\
+    extra_width o (length cols) + sumZ ws = target_width o avail /\
     (Forall (fun r => length (r_cells r) = length ws) rows ->
      exists lines, render_table false o b ws rows = Ok lines /\
                    expand_exact_b (target_width o avail) (map line_text lines) = true).
+Proof. exact table_expand_exact_dom. Qed.
+Print Assumptions C07_table_expand_exact.
+
+(* non-vacuous on the ratio + collapse + re-measure path (the D21 witness) and the plain path *)
+Example C07_table_expand_exact_nonvacuous :
+  expand_dom_b d21_opts d21_cols 28 = true /\ Forall (fun c => Forall cell_fun_ok (c_cells c)) d21_cols /\
+  table_widths false false d21_opts d21_cols 28 = Ok [7; 5; 12] /\
+  expand_dom_b capmin_opts capmin_cols 40 = true /\ table_widths false false capmin_opts capmin_cols 40 = Ok [19; 18].
 Proof.
-  intros o b cols avail rows Hb He Hf Hne mw Hp Hs.
-  destruct (calc_widths_expand_fits false false o cols mw He (or_introl eq_refl) Hf Hne Hp Hs) as [ws [W1 [W2 [W3 W4]]]].
-  exists ws. split; [exact W1|]. intros Hr.
-  assert (Hne' : ws <> []) by (destruct ws; [destruct cols; [congruence|discriminate]|discriminate]).
-  assert (Hw0 : Forall (fun w => 0 <= w) ws) by (eapply Forall_impl; [|exact W3]; simpl; intros; lia).
-  destruct (table_rows_equal_width o b ws rows Hb Hne' Hw0 Hr) as [lines [L1 [L2 _]]].
-  exists lines. split; [exact L1|]. rewrite W4, W2 in L2. unfold mw in L2.
-  replace (extra_width o (length cols) + (target_width o avail - extra_width o (length cols)))
-    with (target_width o avail) in L2 by lia. exact L2.
+  split; [vm_compute; reflexivity|]. split; [unfold d21_cols; repeat (constructor; [cbn [c_cells]; apply text_cells_ok|]); constructor|].
+  split; [vm_compute; reflexivity|]. split; vm_compute; reflexivity.
 Qed.
-Print Assumptions C07_table_expand_exact_rendered.
+
+(* the domain's "no column min_width" is needed (column min_width is outside C07's quantifier):
+   the collapse levels such a column like any other, the re-measure clamps it back up *)
+Example C07_table_expand_exact_minw_needed :
+  calc_widths false false minw_opts minw_cols 24 = Ok [10; 8; 8] /\ sumZ [10; 8; 8] <> 24.
+Proof. exact table_expand_exact_minw_needed. Qed.
+
+(* observation (finding, no fix proposed): a ratio column can be squeezed to one cell at any width *)
+Example C07_ratio_column_one_cell :
+  table_widths false false ratio1_opts ratio1_cols 20 = Ok [1; 19] /\ expand_dom_b ratio1_opts ratio1_cols 20 = true.
+Proof. exact ratio_column_one_cell. Qed.
 
 (* D21: as found, table_width is stale after the re-measure *)
 Theorem C07_table_expand_exact_stale_refuted :
@@ -260,10 +257,62 @@ Theorem C07_table_expand_exact_capmin_refuted :
 Proof. exact table_expand_exact_capmin_refuted. Qed.
 Print Assumptions C07_table_expand_exact_capmin_refuted.
 
-(* cell_chars_in_own_column ("for fold columns every non-whitespace character of every cell
-   appears, in order, inside that column's span and nowhere else"): NOT a theorem here -- it needs
-   the wrapping model of C02 for the cell contents.  What is proved is the frame it lives in
-   (C07_table_rows_equal_width + C07_rows_in_order: the cell rectangles are exactly the column
-   spans computed from the width vector); the statement itself is checked by
-   SpecTable.cells_in_columns_b on the implementation's output for every generated table, with the
-   column spans recomputed from the top border of the output. *)
+(* ================================================================= every cell in its own column
+
+   For ANY cells whose lines fit their column width (raw_ok: line_len <= w; content characters are
+   at least one cell wide): the content characters (not whitespace, not box characters) found inside
+   column j's span of the printed table -- spans computed from the width vector as col_spans does --
+   are exactly those of column j's cells, row after row, line after line, and no content character
+   lies outside a span or across a boundary.  Header and footer are rows like the others. *)
+Theorem C07_cells_in_columns_any_cells : forall o b widths rows lines,
+  box_agrees o b -> Forall (fun w => 0 <= w) widths ->
+  Forall (row_fit (skip_of b) widths) rows -> render_table false o b widths rows = Ok lines ->
+  cells_in_columns_b widths (o_box o) (o_edge o) (skip_of b)
+    (map (fun e => (true, e)) (table_vals b widths rows)) (map line_text lines) = true.
+Proof. intros o b widths rows lines Hb Hw. exact (render_table_cells_in_columns o b widths Hb Hw rows lines). Qed.
+Print Assumptions C07_cells_in_columns_any_cells.
+
+(* ... and text cells with overflow "fold" are such cells: Text, or Padding(Text) as _get_cells
+   builds it, rendered through Console.render_lines at the column width (C01's Layout.text_child /
+   Frames.padding_child), keeps every non-whitespace character of the text, in order (C02:
+   wrap_keeps_nonspace_all, wrap_fits_all), provided the column leaves two cells of content width
+   (cell_room) and the text has no zero-width non-whitespace characters (wide_ok).  Hence: for
+   columns with overflow fold every non-whitespace character of every cell appears, in order,
+   inside that column's span of cells and nowhere else -- all rows, by induction over the rows. *)
+Theorem C07_cell_chars_in_own_column : forall cf o b widths rows lines,
+  box_agrees o b -> widths <> [] -> Forall (fun w => 0 <= w) widths ->
+  Forall (trow_ok (skip_of b) widths) rows ->
+  render_table false o b widths (map (text_row cf) rows) = Ok lines ->
+  cells_in_columns_b widths (o_box o) (o_edge o) (skip_of b)
+    (map (fun e => (true, e)) (col_texts (skip_of b) (length widths) rows)) (map line_text lines) = true.
+Proof. exact table_text_cells_in_columns. Qed.
+Print Assumptions C07_cell_chars_in_own_column.
+
+Definition cc_ro : Layout.ropts := Layout.mkRO None (Some Wrap.OV_FOLD) false.
+Definition cc_pad : option (Z * Z * Z * Z) := Some (0, 1, 0, 1).
+Definition cc_rows : list (list tcell * bool) :=
+  [([(cc_pad, cc_ro, lit "ab cd"); (cc_pad, cc_ro, [12354; 12354; 120])], false);
+   ([(cc_pad, cc_ro, lit "e"); (cc_pad, cc_ro, lit "fg hij")], false)].
+Example C07_cell_chars_nonvacuous :
+  Forall (trow_ok (skip_of d11_box) [4; 5]) cc_rows /\
+  match render_table false d11_opts d11_box [4; 5] (map (text_row (Layout.mkCfg 80 true)) cc_rows) with
+  | Ok lines => map line_text lines <> [] /\
+                col_texts (skip_of d11_box) 2 cc_rows = [lit "abcde"; [12354; 12354; 120] ++ lit "fghij"]
+  | _ => False
+  end.
+Proof.
+  assert (T : forall w s, 4 <= w -> wide_ok (skip_of d11_box) s -> tcell_ok (skip_of d11_box) (w, (cc_pad, cc_ro, s))).
+  { intros w s Hw Hs. unfold tcell_ok. split; [split; [reflexivity|right; reflexivity]|].
+    split; [cbn [cell_room cc_pad]; lia|exact Hs]. }
+  assert (Wk : forall s, forallb (fun c => negb (keepc (skip_of d11_box) c) || (1 <=? char_size c)) s = true ->
+                         wide_ok (skip_of d11_box) s).
+  { intros s H. rewrite forallb_forall in H. apply Forall_forall. intros c Hc Hk. specialize (H c Hc).
+    rewrite Hk in H. cbn [negb orb] in H. apply Z.leb_le. exact H. }
+  split.
+  - unfold cc_rows.
+    repeat (apply Forall_cons;
+            [split; [reflexivity|cbn [combine fst];
+                     repeat (apply Forall_cons; [apply T; [lia|apply Wk; vm_compute; reflexivity]|]); apply Forall_nil]|]).
+    apply Forall_nil.
+  - vm_compute. split; [discriminate|reflexivity].
+Qed.
